@@ -19,7 +19,7 @@ RULE = ("histories over add (Note object, bare name, 'Name-octave', name+octave,
         "35 roots, 35 names x 35 interval shorthands x up/down, numerals x suffixes x 30 keys. Non-trivial: a history with an "
         "add after a remove, an enharmonic duplicate add or a list mixing octaves; a constructor case whose chord crosses an "
         "octave boundary or has >= 4 notes."
-        " Also: octave 0 (pool and an exhaustive alphabet around it), the container's own list or a returned list used as removal list, keyword forms, containers handed in earlier are re-checked after every later step and touched by the caller (third exhaustive alphabet); the from_* constructors on a container that already holds notes (documented: empty the container, then add).")
+        " Also: octave 0 (pool and an exhaustive alphabet around it), the container's own list or a returned list used as removal list, keyword forms, containers handed in earlier are re-checked after every later step and touched by the caller (third exhaustive alphabet); the from_* constructors on a container that already holds notes (documented: empty the container, then add); slash chords over their own chord notes and polychords of chords that share notes.")
 ASSUMPTIONS = ["bare-name octave follows the documented rule (octave of the top note, +1 if that lies below it); where that rule "
                "and 'at or above the top note' disagree (B#/Cb spellings) either outcome is accepted",
                "container is_dissonant(f) = not is_consonant(not f), mirroring the pairwise definition",
@@ -450,6 +450,29 @@ def sub_constructors(ctx, shard, n):
         ctx.exhaustive("from_chord_shorthand: shorthands x roots", "%d shorthands x 35 roots" % len(shs), len(shs) * len(roots))
         ctx.exhaustive("from_interval_shorthand: names x shorthands x up/down", "35 x 31 (size 0..11) x 2", 35 * 31 * 2)
     ctx.enumerate("from_chord", check_from_chord, cases)
+    # slash chords over each of their own notes (and over a foreign note) and polychords of chords that share notes: a name
+    # that occurs twice is voiced twice
+    extra = []
+    for r in T.unmixed_names(1):
+        for s_ in ("", "m", "7", "M7", "m7", "6"):
+            try:
+                ns = chords.from_shorthand(r + s_)
+            except Exception:  # noqa - C06's subject
+                continue
+            extra += [r + s_ + "/" + b for b in ns] + [r + s_ + "/" + T.spelled(T.letter_up(r[0], 1), 0)]
+            extra += [r + s_ + "|" + ns[1] + "m", ns[2] + "|" + r + s_, r + s_ + "|" + r + s_]
+    def unambiguous(sh_):
+        # two neighbouring chord notes of one pitch class under different names (B# over C) are left out: "at or above the
+        # previous top note" and "no two notes of equal pitch" cannot both be met there
+        try:
+            ns_ = chords.from_shorthand(sh_)
+        except Exception:  # noqa - C06's subject
+            return False
+        return all(a == b or T.pc(a) != T.pc(b) for a, b in zip(ns_, ns_[1:]))
+    extra = [x for x in sorted(set(extra)) if unambiguous(x)][shard::n]
+    if shard == 0:
+        ctx.exhaustive("from_chord_shorthand: slash chords over their own notes, polychords of chords sharing notes", "21 roots x 6 shorthands", len(extra) * n)
+    ctx.enumerate("from_chord", check_from_chord, extra)
     ishs = [s for s in T.INTERVAL_SHORTHANDS if 0 <= T.shorthand_size(s) <= 11]
     cases = [[r, s, up] for r in roots for s in ishs for up in (True, False)][shard::n]
     ctx.enumerate("from_interval", check_from_interval, cases)
